@@ -22,14 +22,28 @@ LEVEL_TEXT = {
     'C03': 'Unbounded deductive proof (Verus) of contracts on the real evaluation functions: every binary/prefix/postfix operator returns the exact mathematical value or an error exactly when that value is undefined or unrepresentable; operator tables equal the C tables. Right level: the property quantifies over all i64 operands, which only a proof covers.',
     'C12': 'Unbounded deductive proof (Verus) that every JobList mutator preserves the five-clause consistency statement and never renumbers a job, from assumed finite-map contracts on slab/HashMap; the two iterator-based selectors assumed there are checked on the real code by Kani for bounded table shapes (bounded stand-in, labelled).',
 }
+LEVEL_TEXT.update({
+    'C11': 'Unbounded deductive proof (Verus) that every operation of the per-signal trap record preserves "installed disposition = max(internal need, user action)" from every state, refuses to trap or reset an initially ignored signal without override, leaves everything unchanged on failure, and handles the pending flag exactly once per catch; an inductive invariant over all histories, which is what the property quantifies over.',
+    'C08': 'Unbounded deductive proof (Verus) of the trap-reset clause only (command traps reset to default with the parent state saved, ignores kept, on subshell entry). The rest of C08 (isolation of all other state under every interleaving) is outside what a function contract can state and is not claimed.',
+})
 NOTE = {
     'C03': 'Trusted: Verus/Z3, vstd specs of checked arithmetic, assumed specs of checked_shl/shr/neg, Option::filter, str::parse (uninterpreted), Display for Value, the Env implementor contract. Not covered: eval()/parser structure, tokenizer, non-decimal variable values (F3).',
     'C12': 'Trusted: Verus/Z3, Kani/CBMC, assumed contracts for slab::Slab and (in Kani) a linear-scan stand-in for std HashMap; selectors assumed in Verus and bounded-checked in Kani (<= 3 slots quick); pid-reuse precondition from the property quantifier.',
 }
+NOTE.update({
+    'C11': 'Trusted: Verus/Z3; model SignalSystem trait (sync, &mut self); async/await stripped; hash_map::Entry contract used for btree_map::Entry; derived PartialEq/Ord assumed structural. Not covered: TrapSet dispatch, timing of trap execution.',
+    'C08': 'Decides one clause of C08 (trap reset on subshell entry) and nothing else; same trusted base as C11.',
+})
 TECH = {
     'C03': 'contract-based deductive verification (Verus, Z3) of mechanically extracted real functions',
     'C12': 'contract-based deductive verification (Verus) + Kani harness-encoded contracts (bounded) on the real crate',
 }
+
+
+TECH.update({
+    'C11': 'contract-based deductive verification (Verus, Z3): inductive invariant of the per-signal trap record',
+    'C08': 'contract-based deductive verification (Verus, Z3) of GrandState::enter_subshell / ignore',
+})
 
 
 def main():
